@@ -18,6 +18,8 @@ struct St {
   int flag = 0; int passed = 0;
   bool single_cond = false;
   bool trylock_producers = false;
+  uint64_t hold_ns = 0;          // the notifier keeps the mutex for this much SIMULATED time before it changes the predicate (a waiter must sit it out:
+                                 // whatever the implementation does internally meanwhile - timed slices, re-checks - the notification that follows must reach it)
   bool notify_unlocked = false;   // "unlock, then notify": legal usage; the waiter-set oracles need the mutex and are skipped
 };
 St *S;
@@ -138,6 +140,7 @@ void root() {
   uint32_t mode = gen(4);
   S->notify_unlocked = gen(3) == 0;
   S->trylock_producers = gen(4) == 0;
+  { static const uint64_t durs[] = {300, 1200, 2500, 61000}; if (gen(3) == 0) { S->hold_ns = durs[gen(4)] * 1000000ULL + gen(1000) * 1000ULL; probe("cond.notifier_holds_mutex_for_simulated_time"); } }
   if (mode <= 1) {
     // bounded buffer
     int np = (int)gen_range(1, tier ? 4 : 3), nc = (int)gen_range(1, tier ? 4 : 3);
@@ -166,6 +169,7 @@ void root() {
     spawn(0, []() {
       if (gen(2)) yield_point();
       lock_m();
+      if (S->hold_ns) sleep_until(now_ns() + S->hold_ns);
       SIM_WRITE(S->flag);
       S->flag = 1;
       if (S->notify_unlocked) { unlock_m(); broadcast_c(S->c1, S->c1num, false); }
@@ -186,6 +190,7 @@ void root() {
       for (int spin = 0; spin < 200 && shim::cond_waiters(S->c1num) == 0 && w->state != T_FINISHED; spin++) yield_point();
       if (shim::cond_waiters(S->c1num) > 0) probe("cond.signal_to_parked_waiter");
       lock_m();
+      if (S->hold_ns) sleep_until(now_ns() + S->hold_ns);
       SIM_WRITE(S->flag);
       S->flag = 1;
       signal_c(S->c1, S->c1num);
